@@ -67,7 +67,9 @@ def rule_algebra(ctx: Ctx) -> None:
     ctx.require(rows == {"raise", "ok"} or "ok" in rows, "HomogeneousMatrix.dot: paths not recognised")
     # inverse
     fi = ctx.func(HM + "inv")
-    for p in enum_paths(ctx, fi):
+    inv_paths = [p for p in enum_paths(ctx, fi) if not (p.exit and p.exit[0] == "raise" and p.exit[1:] == ("AssertionError",))]  # a defensive assertion adds a raising path
+    ctx.require(bool(inv_paths), "inv: no returning path")
+    for p in inv_paths:
         rv = p.retval
         ctx.require(isinstance(rv, ast.Call), "inv: does not return a matrix")
         kw = {k.arg: S(k.value) for k in rv.keywords}
